@@ -15,7 +15,7 @@ these are covered only by the bounded native sweep.
 """
 import ast
 import z3
-from pyvc.engine import SObj, PyRaise, NDArr
+from pyvc.engine import SObj, SList, PyRaise, NDArr
 from pyvc.values import *      # noqa
 from pyvc.runner import Unit, Canary
 from pyvc.frames import CallGraph, rooted_reads
@@ -549,4 +549,92 @@ U_FRESNEL = Unit(P + '/compute_far_field-fresnel', ['Mininec.compute_far_field']
                            Canary('root-of-1+Z^2sin^2', 'Mininec.compute_far_field', _RootPlus, [P + '/compute_far_field[Fresnel]/w-is']),
                            Canary('horizontal-not-relative-to-vertical', 'Mininec.compute_far_field', _HNotRelative, [P + '/compute_far_field[Fresnel]/horizontal', P + '/compute_far_field[Fresnel]/perfect'])])
 
-UNITS = [U_READS, U_GROUND, U_REFL, U_LOOKUP, U_LOOKUP_LEMMA, U_FRESNEL]
+
+
+# ---------------------------------------------------------------- the limit point: a perfectly conducting real ground IS ideal ground
+def t_perfect_limit(eng):
+    """The statements `pv = ...` ... `x34 = ...` of compute_far_field (direction vectors, both image passes, projections),
+    run twice on the same symbolic arrays (1 zenith x 1 azimuth x 2 pulses, pulse 1 ungrounded / grounded at end 1 / at
+    end 2): once over ideal ground, once over ONE real medium whose surface impedance is 0 (the value Medium.impedance
+    tends to as the conductivity grows), height 0, no radial screen.  Contract: the two field components coincide.
+    This is the limit point of the convergence clause; how fast the pattern approaches it is left to the native sweep."""
+    from . import C10
+    n = P + '/compute_far_field[perfect-conductor limit]/'
+    eng.name_real_quotients = True
+    f, stmts = C10.radiation_slice(eng)
+    NZ_, NA_, NP_ = 1, 1, 2
+    gcase = eng.choose(3)
+    w, g0 = fresh_real('w'), fresh_real('g0')
+    point = C10.sym_nd((NP_, 3), 'pt')
+    gr = [[gcase == 1, gcase == 2]] + [[False, False] for _ in range(NP_ - 1)]
+    if gcase:
+        point.data[0][2] = 0
+    sign, seg_len, dirvec = C10.sym_nd((NP_, 2), 'sg'), C10.sym_nd((NP_, 2), 'sl'), C10.sym_nd((NP_, 2, 3), 'dv')
+    cur = NDArr([fresh_cx('I%d' % k) for k in range(NP_)])
+    phi, theta = [fresh_real('phi0')], [fresh_real('theta0')]
+    # above grazing: the direction has a non-zero cosine of the zenith angle (the clause excludes the horizon)
+    import pyvc.builtins as _B
+    cz, _sz = _B.trig(eng, r_neg(theta[0]))
+    eng.assume(r_cmp('!=', cz, 0))
+    pw = fresh_real('power')
+    eng.assume(r_cmp('>', pw, 0))
+    azi, zen = SObj('Angle', label='azi'), SObj('Angle', label='zen')
+    eng.summaries['Pulse_Container.__len__'] = lambda e, a, k: NP_
+    eng.summaries['Mininec.image_iter'] = lambda e, a, k: SList([('conc', [1, -1])])
+    eng.summaries['Angle.angle_rad'] = lambda e, a, k: NDArr(list(phi)) if a[0] is azi else NDArr(list(theta))
+    deg = {id(azi): NDArr([fresh_real('phi_deg')]), id(zen): NDArr([fresh_real('theta_deg')])}
+    eng.summaries['Angle.angle_deg'] = lambda e, a, k: deg[id(a[0])]
+    out = {}
+    for kind in ('ideal', 'real'):
+        m = SObj('Mininec', label='m-' + kind)
+        m.fields.update({'w': w, 'g0': g0, 'power': pw, 'current': cur, 'boundary': AStr_lit('linear')})
+        med = SObj('Medium', label=kind)
+        med.fields['is_ideal'] = (kind == 'ideal')
+        m.fields['media'] = SList([('conc', [med])])
+        pv = SObj('Pulse_Container', label='pulses-' + kind)
+        m.fields['pulses'] = pv
+        pv.fields.update({'point': NDArr([list(r) for r in point.data]), 'sign': sign, 'seg_len': seg_len, 'dirvec': dirvec,
+                          'ground': NDArr(gr), 'inv_ground': NDArr([[r[1], r[0]] for r in gr])})
+        env = {'self': m, 'azimuth_angle': azi, 'zenith_angle': zen}
+        if kind == 'real':
+            # what the preamble `if self.media:` builds for one medium of impedance 0 at height 0 without radials
+            env.update({'nr': 0, 'rr': 0, 'media_coord': NDArr([Fraction(1000000)]), 'media_height': NDArr([0]),
+                        'media_impedance': NDArr([CX(0, 0)])})
+        eng.frames.append({'fref': eng.fref(C10.Q), 'env': env, 'qual': C10.Q, 'node': f})
+        try:
+            try:
+                eng.exec_block(stmts, env)
+            except PyRaise as ex:
+                if ex.cls == 'ZeroDivisionError':
+                    eng.cover('vanishing-denominator-' + kind)
+                    return
+                raise
+        finally:
+            eng.frames.pop()
+        out[kind] = (env['h12'], env['x34'])
+    eng.cover('perfect-limit-case%d' % gcase)
+    for nm, k in (('E(theta)', 0), ('E(phi)', 1)):
+        a, b = out['ideal'][k], out['real'][k]
+        ok = isinstance(a, NDArr) and isinstance(b, NDArr) and a.shape == b.shape == (1, 1)
+        eng.oblige(n + nm + '-over-a-perfectly-conducting-real-ground-equals-ideal-ground',
+                   ok and bterm(c_eq(to_cx(a.data[0][0]), to_cx(b.data[0][0]))))
+
+
+class _ReflectedPhaseSign(ast.NodeTransformer):
+    """the reflected ray's phase taken at the point itself instead of its mirror image"""
+
+    def visit_Assign(self, node):
+        if ast.unparse(node.targets[0]) == 's2' and 'sh' in ast.unparse(node.value):
+            node.value = ast.parse(ast.unparse(node.value).replace('* kvec', '')).body[0].value
+        return node
+
+
+U_LIMIT = Unit(P + '/compute_far_field-perfect-conductor-limit', ['Mininec.compute_far_field'], t_perfect_limit, SCHEMA,
+               slices={'Mininec.compute_far_field': 'the statements `pv = ...` through `x34 = ...`, executed once with an ideal medium and once with a '
+                                                    'real medium of surface impedance 0 (the media tables of the preamble are supplied: one medium, '
+                                                    'height 0, no radials)'},
+               kind='bounded', notes='shape-bounded: 1 zenith x 1 azimuth x 2 pulses; values symbolic',
+               canaries=[Canary('reflected-ray-phase-not-mirrored', 'Mininec.compute_far_field', _ReflectedPhaseSign,
+                                [P + '/compute_far_field[perfect-conductor limit]/'])])
+
+UNITS = [U_READS, U_GROUND, U_REFL, U_LOOKUP, U_LOOKUP_LEMMA, U_FRESNEL, U_LIMIT]
